@@ -293,6 +293,46 @@ func vpH_C10_block() {
 	vpReach("end")
 }
 
+// a list of objects: Recipients() of the list is the de-duplicated union, and each member's own
+// addressing lists end up exactly as its own Recipients() would leave them - what another member of
+// the list mentions does not take anything away from this one
+func vpH_C10_list_of_objects() {
+	mk := func(c byte) IRI { return IRI("https://h.ex/" + string([]byte{c})) }
+	a, b, c := vpRange('a', 'c'), vpRange('a', 'c'), vpRange('a', 'c')
+	first := &Object{ID: "https://h.ex/n1", Type: NoteType, To: ItemCollection{mk(a)}, CC: ItemCollection{mk(b)}}
+	second := &Object{ID: "https://h.ex/n2", Type: NoteType, To: ItemCollection{mk(b), mk(c)}, BCC: ItemCollection{mk(a)}}
+	// what each member looks like after its own Recipients()
+	r1, r2 := *first, *second
+	r1.To, r1.CC = append(ItemCollection{}, first.To...), append(ItemCollection{}, first.CC...)
+	r2.To, r2.BCC = append(ItemCollection{}, second.To...), append(ItemCollection{}, second.BCC...)
+	_ = r1.Recipients()
+	_ = r2.Recipients()
+	list := ItemCollection{first, second}
+	got := list.Recipients()
+	// the union, first mentions in order: to, cc of the first, then to, bcc of the second
+	var want ItemCollection
+	for _, it := range []IRI{mk(a), mk(b), mk(b), mk(c), mk(a)} {
+		seen := false
+		for _, w := range want {
+			if w.GetLink() == it {
+				seen = true
+			}
+		}
+		if !seen {
+			want = append(want, it)
+		}
+	}
+	vpAssert("list/union-count", len(got) == len(want))
+	if len(got) == len(want) {
+		for i := range want {
+			vpAssert("list/union-order", got[i].GetLink() == want[i].GetLink())
+		}
+	}
+	vpAssert("list/first-member-to", vpEq_Items(first.To, r1.To) && vpEq_Items(first.CC, r1.CC))
+	vpAssert("list/second-member-lists", vpEq_Items(second.To, r2.To) && vpEq_Items(second.BCC, r2.BCC))
+	vpReach("end")
+}
+
 func vpW_C10_twin() {
 	t := vpC10Target(0)
 	vpC10Run(t, []vpAddr{vpAddressee(0)}, []int{0})
